@@ -20,7 +20,8 @@ ACTIONS = ["StartAny", "DoAny", "FailAny", "UndoAny", "Settle", "Restart"]
 
 
 STRICT = (("IfaceConns_mc_strict_prof.cfg", "W3", "StrictFailureProfiles"),
-          ("IfaceConns_mc_strict_setup.cfg", "W1", "StrictFailureRestores"))
+          ("IfaceConns_mc_strict_setup.cfg", "W1", "StrictFailureRestores"),
+          ("IfaceConns_mc_strict_forget.cfg", "W2", "StrictFailureRestores"))
 
 
 def _design(ctx):
@@ -34,7 +35,7 @@ def _design(ctx):
     def strict(cfg):
         return tlc.run(ctx, "IfaceConns", cfg, workers=2, timeout=900, name="tlc_" + cfg.replace(".cfg", ""))
 
-    with concurrent.futures.ThreadPoolExecutor(max_workers=4) as ex:
+    with concurrent.futures.ThreadPoolExecutor(max_workers=5) as ex:
         fm = {cfg: ex.submit(mc, cfg) for cfg in cfgs}
         fs = {cfg: ex.submit(strict, cfg) for cfg, _, _ in STRICT}
         mcs = {cfg: f.result() for cfg, f in fm.items()}
